@@ -27,6 +27,7 @@ func runC07(c *Check) {
 	c.scaleProfilesPairing()
 	c.scaleNKeepsWeight()
 	c.compatibilizeIndexMap()
+	c.c07H()
 }
 
 // loadIndex: v = *(&arr[idx]) → (arr, idx)
